@@ -19,6 +19,8 @@ ALIAS_VARIANTS = {
     "stable": {"p": ("MyP", "pi+"), "q": ("MyQ", "UnknownParticle0")},
     "all": {"M": ("MyM", "B0"), "X": ("MyX", "K_1(1270)+"), "Y": ("MyY", "D*(2010)+"), "Z": ("MyZ", "a_1(1260)+"), "p": ("MyP", "pi+")},
     "swapped": {"X": ("MyX", "p"), "p": ("MyP", "X")},  # alias targets that look like other names of the file
+    "same-target": {"X": ("MyX", "D0"), "Y": ("MyY", "D0"), "Z": ("MyZ", "D0")},  # several decaying aliases of one particle
+    "alias-of-table": {"X": ("MyX", "@Y")},  # a decaying alias of a name that has its own (different) Decay block
 }
 
 
@@ -33,6 +35,10 @@ def build(t, alias, tag=""):
         nm = alias_name + tag if k in tabs else alias_name
         used = k in tabs or any(k in ds for lines in t.values() for ds in lines)
         if used:
+            if target.startswith("@"):
+                # the aliased name is another decaying particle of the same file
+                tk = target[1:]
+                target = rename.get(tk, tk) + (tag if tk in tabs else "")
             al.append(["Alias", nm, target])
     return al + ast
 
@@ -168,7 +174,7 @@ def run(ctx):
     items = [(t, "none") for t in base] + [(t, a) for t in spines for a in ALIAS_VARIANTS]
     # alias variants on a slice of the generated sets (all of them in thorough)
     step = 1 if ctx.thorough else 7
-    for a in ("top", "nested", "stable", "all", "swapped"):
+    for a in ("top", "nested", "stable", "all", "swapped", "same-target", "alias-of-table"):
         items += [(t, a) for t in base[(ctx.seed % step)::step]]
     ctx.log(f"{len(items)} (table set, alias variant) scenarios, packed 40 per file")
     ctx.sample({"tables": spines[1], "alias": "all", "text": decmodel.render(build(spines[1], "all"))})
